@@ -167,6 +167,12 @@ func readFullLine(reader *bufio.Reader) (string, error) {
 		l, more, err := reader.ReadLine()
 
 		if err != nil {
+			// A last line that exactly fills the reader's buffer and is not
+			// terminated by a newline is only followed by EOF
+			if err == io.EOF && line != nil {
+				break
+			}
+
 			return "", err
 		}
 
